@@ -3,3 +3,44 @@ package vc
 import "go/types"
 
 func (vc *VC) byteKind() string { return vc.tt.kind(types.Typ[types.Uint8]) }
+
+// zeroArray is the all-zero content of a fresh object for heap kind k.  Constant
+// arrays need a value literal as default (cvc5 rejects defined names), so pointer /
+// slice / interface zeros are spelled with their constructors, and sorts without
+// literals (strings, floats) use a declared array with a defining axiom.
+func (vc *VC) zeroArray(k string) Term {
+	srt := ArraySort(SInt, kindSort(k))
+	lit := ""
+	switch k[:1] {
+	case "I", "C":
+		lit = "0"
+	case "B":
+		lit = "false"
+	case "P":
+		lit = "(mkptr 0 0)"
+	case "S":
+		lit = "(mkslice 0 0 0 0)"
+	case "F":
+		lit = "(mkiface 0 (mkptr 0 0))"
+	}
+	if lit != "" {
+		return Term{"((as const " + srt + ") " + lit + ")", srt}
+	}
+	name := "zeroarr_" + k[:1]
+	if !vc.heapDecl[name] {
+		vc.heapDecl[name] = true
+		vc.cmd("(declare-const " + name + " " + srt + ")")
+		vc.cmd("(assert (forall ((zi Int)) (! (= (select " + name + " zi) " + kindZero(k).S + ") :pattern ((select " + name + " zi)))))")
+	}
+	return Term{name, srt}
+}
+
+// knownCtor maps defined names (define-fun) to their constructor-application bodies so that
+// selectors fold through definitions.  Reset per VC (VC generation is sequential).
+var knownCtor = map[string]string{}
+
+func registerCtor(name, body string) {
+	if len(body) > 9 && (body[:9] == "(mkslice " || body[:7] == "(mkptr " || body[:9] == "(mkiface ") {
+		knownCtor[name] = body
+	}
+}
